@@ -18,7 +18,7 @@ class Adapter(EnvAdapter):
         from harness.envs.base import T_SWEEP_QUICK_FEW, T_SWEEP_THOROUGH_FEW
 
         ts = T_SWEEP_QUICK_FEW if tier == "quick" else T_SWEEP_THOROUGH_FEW
-        return self._base_configs(tier) + [dict(id=f"r10c10_t{t}_sweep", ctor=dict(num_rows=10, num_cols=10, time_limit=t), episodes=1, max_steps=t + 2, policies=["survive"], probe_every=0, props=["C03", "C11"]) for t in ts]
+        return self._base_configs(tier) + [dict(id=f"r10c10_t{t}_sweep", ctor=dict(num_rows=10, num_cols=10, time_limit=t), episodes=1, max_steps=t + 2, policies=["survive"], probe_every=0, props=["C01", "C03", "C11", "C12"]) for t in ts]
 
     def _base_configs(self, tier):
         def c(id, rows, cols, tl, **kw):
